@@ -218,6 +218,11 @@ fn main() {
                         let d = String::from_utf8_lossy(&unhx(get("doc"))).to_string();
                         gen_dec::parse_doc_under(get("scheme"), &d, &mut out);
                     }
+                    "alt" => {
+                        if get("route") == "all" {
+                            gen_dec::alt_under(get("scheme"), &unhx(get("in")), &mut out);
+                        }
+                    }
                     "nid" => gen_misc::nid_exec(get("op"), &unhx(get("in")), &mut out),
                     "ck" => gen_misc::ck_line(get("kind"), &unhx(get("in")), &mut out),
                     "decmany" | "declist" => {
